@@ -145,6 +145,8 @@ package dns
 //@ func (s *ServerDnsListener) setOptionsRequest
 //@   property C12, C13
 //@   safe
+//@   callsite closeConnection#1 (err error) require err == nil                            :session_closed_only_for_a_validated_peer
+//@   callsite Infof#1 (err error) require err == nil                                      :options_changed_only_for_a_validated_peer
 //@   requires srvWF(s) && v != nil && v.UserId < 1296 && m != nil && len(m.Question) == 1 && remoteAddr != nil
 //@   ensures srvBase(s)
 //@   ensures connsWF(s)                                                                   :sessions_stay_usable
